@@ -10,6 +10,7 @@ package main
 // Derived from the function's own parameter list; no annotation.
 
 import (
+	"os"
 	"fmt"
 	"go/constant"
 	"regexp"
@@ -197,7 +198,7 @@ func (pc *pCtx) p9BlockingWaits(s *pSite) {
 							continue
 						}
 						m := c2.Common().Method.Name()
-						if (m == "Add" || m == "AddUnsubscribable") && s.isDest(stripLoad(c2.Common().Value)) && precedes(c2, call) {
+						if (m == "Add" || m == "AddUnsubscribable") && s.isDest(c2.Common().Value) && precedes(c2, call) {
 							registered = true
 						}
 					}
@@ -289,4 +290,74 @@ func onEveryPath(fn *ssa.Function, b *ssa.BasicBlock, call *ssa.Call) bool {
 		stack = append(stack, cur.Succs...)
 	}
 	return true
+}
+
+// P10 (C07, C05): no call on the destination is made while holding a lock that the site's teardown acquires. A terminal
+// delivered downstream runs the teardown on the same goroutine (self-deadlock), and a concurrent terminal from another
+// source closes the cycle between the operator's lock and the subscriber's lock.
+func (pc *pCtx) p10LockOrder(s *pSite) {
+	props := []string{"C07", "C05"}
+	// locks the teardown functions acquire (directly)
+	tdLocks := map[ssa.Value]bool{}
+	for _, fn := range s.Closures {
+		if !s.inTeardown(fn) {
+			continue
+		}
+		for _, b := range fn.Blocks {
+			for _, ins := range b.Instrs {
+				if call, ok := ins.(*ssa.Call); ok {
+					if l, op := s.lockOp(call.Common()); l != nil && op == "lock" {
+						tdLocks[l] = true
+					}
+				}
+			}
+		}
+	}
+	if len(tdLocks) == 0 {
+		return
+	}
+	if debugPaths {
+		for l := range tdLocks {
+			fmt.Fprintf(os.Stderr, "P10 %s teardown lock %s (%T)\n", s.Name, cellName(l), l)
+		}
+	}
+	n := 0
+	for _, fn := range s.Closures {
+		if s.inTeardown(fn) {
+			continue
+		}
+		ls := s.locksets(fn, nil)
+		for _, b := range fn.Blocks {
+			for _, ins := range b.Instrs {
+				call, ok := ins.(*ssa.Call)
+				if !ok || !call.Common().IsInvoke() || !s.isDest(call.Common().Value) {
+					continue
+				}
+				m := call.Common().Method.Name()
+				if m != "NextWithContext" && m != "ErrorWithContext" && m != "CompleteWithContext" && m != "Next" && m != "Error" && m != "Complete" {
+					continue
+				}
+				if debugPaths {
+					fmt.Fprintf(os.Stderr, "P10 %s %s.%s held=%d\n", s.Name, funcKey(fn), m, len(ls[ins]))
+				}
+				var held []string
+				for l := range ls[ins] {
+					if tdLocks[l] {
+						held = append(held, cellName(l))
+					}
+				}
+				if len(held) == 0 {
+					continue
+				}
+				n++
+				pc.add(props, fmt.Sprintf("P10/%s/downstream-call#%d-is-made-without-the-teardown-lock", s.Name, n),
+					"no notification is delivered downstream while holding a lock that the teardown takes (a terminal notification runs the teardown on the delivering goroutine)", false,
+					fmt.Sprintf("destination.%s is called while holding %s, which the teardown locks", m, strings.Join(held, ", ")), pc.pos(call.Pos()))
+			}
+		}
+	}
+	if n == 0 {
+		pc.add(props, fmt.Sprintf("P10/%s/downstream-calls-are-made-without-the-teardown-lock", s.Name),
+			"no notification is delivered downstream while holding a lock that the teardown takes", true, "", pc.pos(s.CtorCall.Pos()))
+	}
 }
